@@ -56,7 +56,12 @@ func genC29(seed uint64, tier string) Case {
 	n := 4 + r.intn(37)
 	for i := 0; i < n; i++ {
 		sw := int64(r.intn(nsw))
-		switch r.pick(55, 12, 8, 5, 8, 6, 4) {
+		switch r.pick(55, 12, 8, 5, 8, 6, 4, 5) {
+		case 7:
+			// a large swamp: >= 100 entries of which 26..40% are superseded, so that the file is fragmented enough for
+			// the compaction that runs when a swamp is loaded, but not for the one that runs when it is closed
+			nIns := int64(100 + r.intn(40))
+			c.Ops = append(c.Ops, Op{K: "bulk", A: []int64{sw, nIns, nIns * int64(35+r.intn(30)) / 100}})
 		case 0:
 			c.Ops = append(c.Ops, Op{K: "set", A: []int64{sw, int64(r.intn(5))}})
 		case 1:
@@ -113,6 +118,7 @@ func runC29(t *testing.T, c Case) (res Result) {
 			cl.register(s+"/*/*", false, 2, wi)
 		}
 		closedOnce := false
+		bulkCtr := 0
 		for i, op := range c.Ops {
 			if cl.hung != "" || simrt.Aborted() {
 				break
@@ -159,6 +165,32 @@ func runC29(t *testing.T, c Case) (res Result) {
 			s := sws[int(op.A[0])%len(sws)]
 			cl.island = s.island
 			switch op.K {
+			case "bulk":
+				bulkCtr++
+				var ins, upd []*hydrapb.KeyValuePair
+				for j := int64(0); j < op.A[1]; j++ {
+					v1 := fmt.Sprintf("b%d-%d", bulkCtr, j)
+					ins = append(ins, &hydrapb.KeyValuePair{Key: fmt.Sprintf("bulk%03d", j), StringVal: &v1})
+					if j < op.A[2] {
+						v2 := v1 + "-updated"
+						upd = append(upd, &hydrapb.KeyValuePair{Key: fmt.Sprintf("bulk%03d", j), StringVal: &v2})
+					}
+				}
+				if closedOnce && len(s.keys) > 0 {
+					reopened = true
+				}
+				if _, err := cl.set(s.name, ins, true, true); err != nil {
+					r := violation("set_error", "op %d: bulk Set(%s): %v", i, s.name, err)
+					v = &r
+					return
+				}
+				simrt.Sleep(1500 * time.Millisecond) // one flush for the inserts, one for the updates
+				if len(upd) > 0 {
+					cl.set(s.name, upd, true, true)
+				}
+				for j := int64(0); j < op.A[1]; j++ {
+					s.keys[fmt.Sprintf("bulk%03d", j)] = true
+				}
 			case "set":
 				key := fmt.Sprintf("k%d", op.A[1])
 				val := "v"
